@@ -785,7 +785,7 @@ func (in *Interp) fmtArg(v Value, verb byte) []*sym.Term {
 		return strBytes(v)
 	case *SymStr:
 		if verb == 'q' {
-			in.unsupported("fmt: %%q of symbolic string")
+			return in.quoteBytes(v.B)
 		}
 		return v.B
 	case *sym.Term:
@@ -799,6 +799,21 @@ func (in *Interp) fmtArg(v Value, verb byte) []*sym.Term {
 	case float64:
 		return strBytes(strconv.FormatFloat(v, 'g', -1, 64))
 	case []Value:
+		// []string with %s / %v: [a b c]
+		if (verb == 's' || verb == 'v' || verb == 'q') && (len(v) == 0 || isStringValue(v[0])) {
+			out := []*sym.Term{sym.BV('[', 8)}
+			for i, e := range v {
+				if i > 0 {
+					out = append(out, sym.BV(' ', 8))
+				}
+				if verb == 'q' {
+					out = append(out, in.quoteBytes(strBytes(e))...)
+				} else {
+					out = append(out, strBytes(e)...)
+				}
+			}
+			return append(out, sym.BV(']', 8))
+		}
 		// []byte with %s / %x
 		if verb == 's' {
 			var b []*sym.Term
@@ -853,6 +868,12 @@ func (in *Interp) sprintf(format Value, args []Value) Value {
 		}
 		arg := args[ai]
 		ai++
+		if spec == "#" && verb == 'v' {
+			if iv, ok := arg.(Iface); ok && iv.T != nil {
+				out = append(out, in.goSyntax(iv.V, iv.T)...)
+				continue
+			}
+		}
 		if spec != "" {
 			// fall back to native formatting for concrete scalars
 			var native any
@@ -888,6 +909,82 @@ func (in *Interp) sprintf(format Value, args []Value) Value {
 		out = append(out, in.fmtArg(arg, verb)...)
 	}
 	return mkStr(out)
+}
+
+func isStringValue(v Value) bool {
+	switch v.(type) {
+	case string, *SymStr:
+		return true
+	}
+	return false
+}
+
+// quoteBytes is strconv.Quote for strings whose symbolic bytes are assumed
+// to be printable ASCII other than the quote and the backslash (the
+// assumption is added to the path condition).
+func (in *Interp) quoteBytes(b []*sym.Term) []*sym.Term {
+	out := []*sym.Term{sym.BV('"', 8)}
+	for _, x := range b {
+		if x.IsConst() {
+			out = append(out, strBytes(strings.Trim(strconv.Quote(string(rune(byte(x.C)))), "\""))...)
+			continue
+		}
+		in.assume(sym.And(sym.And(sym.ULe(sym.BV(0x20, 8), x), sym.ULt(x, sym.BV(0x7f, 8))),
+			sym.And(sym.Not(sym.Eq(x, sym.BV('"', 8))), sym.Not(sym.Eq(x, sym.BV('\\', 8))))))
+		out = append(out, x)
+	}
+	return append(out, sym.BV('"', 8))
+}
+
+// goSyntax renders %#v for strings, integers, booleans, slices and structs.
+func (in *Interp) goSyntax(v Value, t types.Type) []*sym.Term {
+	ts := types.TypeString(t, func(p *types.Package) string { return p.Name() })
+	switch u := t.Underlying().(type) {
+	case *types.Basic:
+		switch x := v.(type) {
+		case string:
+			return strBytes(strconv.Quote(x))
+		case *SymStr:
+			return in.quoteBytes(x.B)
+		case *sym.Term:
+			if !x.IsConst() {
+				in.unsupported("fmt: %%#v of symbolic number")
+			}
+			if x.W == 0 {
+				return strBytes(strconv.FormatBool(x.C != 0))
+			}
+			if Signed(u) {
+				return strBytes(strconv.FormatInt(x.Int(), 10))
+			}
+			return strBytes("0x" + strconv.FormatUint(x.C, 16))
+		}
+	case *types.Slice:
+		xs := v.([]Value)
+		if xs == nil {
+			return strBytes(ts + "(nil)")
+		}
+		out := strBytes(ts + "{")
+		for i, e := range xs {
+			if i > 0 {
+				out = append(out, strBytes(", ")...)
+			}
+			out = append(out, in.goSyntax(e, u.Elem())...)
+		}
+		return append(out, sym.BV('}', 8))
+	case *types.Struct:
+		xs := v.(Struct)
+		out := strBytes(ts + "{")
+		for i := range xs {
+			if i > 0 {
+				out = append(out, strBytes(", ")...)
+			}
+			out = append(out, strBytes(u.Field(i).Name()+":")...)
+			out = append(out, in.goSyntax(xs[i], u.Field(i).Type())...)
+		}
+		return append(out, sym.BV('}', 8))
+	}
+	in.unsupported("fmt: %%#v of %s", ts)
+	return nil
 }
 
 func (in *Interp) sprint(args []Value, ln bool) Value {
